@@ -190,11 +190,13 @@ def make_resampler(scheme, n_particles, batches, mode="norm"):
             numpy_sampling_contract(ctx, kind, rec)
             if kind == "choice":
                 draws["choice"] = rec
+                pop = list(range(int(rec["a"]))) if isinstance(rec["a"], (int, np.integer)) else list(rec["a"])  # numpy: an int a means arange(a)
+                rec["population"] = pop
                 out = []
                 for j in range(int(rec["size"])):
                     zi = ctx.register(f"c{j}", z3.Int(f"c{j}"))
-                    ctx.assume(z3.And(zi >= 0, zi < len(rec["a"])))
-                    out.append(SymInt(zi).resolve(0, len(rec["a"]) - 1))
+                    ctx.assume(z3.And(zi >= 0, zi < len(pop)))
+                    out.append(int(pop[SymInt(zi).resolve(0, len(pop) - 1)]))
                 return np.array(out, dtype=int)
             if kind == "multinomial":
                 draws["multinomial"] = rec
@@ -244,7 +246,7 @@ def make_resampler(scheme, n_particles, batches, mode="norm"):
         if scheme == "mult" and "choice" in draws:
             rec = draws.get("choice")
             ok = rec is not None and int(rec["size"]) == n_particles and rec["replace"] is True \
-                and len(rec["a"]) == N and list(rec["a"]) == list(range(N)) and rec["p"] is not None and len(rec["p"]) == N
+                and list(rec["population"]) == list(range(N)) and rec["p"] is not None and len(rec["p"]) == N
             ctx.check("multinomial-call-shape", z3.BoolVal(bool(ok)))
             if ok:
                 ctx.check("multinomial-p-is-whole-history-weights",
